@@ -136,6 +136,7 @@ type op =
 | OGetItem
 | OSetItem
 | ODelItem
+| OGetSlice
 | OGetAttr of nat
 | OSetAttr of nat
 | ODelAttr of nat
@@ -1234,6 +1235,9 @@ let rec vtruth = function
    | OSeq _ -> (match args with
                 | [] -> false
                 | _ :: _ -> true)
+   | OGetSlice -> (match args with
+                   | [] -> true
+                   | a :: _ -> vtruth a)
    | _ -> fold_right (fun a t -> xorb (vtruth a) t) true args)
 
 (** val is_logging : val0 -> bool **)
